@@ -299,7 +299,7 @@ def check_mint(crate, rep, cfg):
                     count("row8")
                     what = "Value::safe_string passed as a function value only in Tera::render_component_to (API contract: the caller supplies the body as markup)"
                     (rep.ok if ok else rep.bad)("C01.MINT", key, b.where(bb, idx), what if ok else what + " — VIOLATED")
-    floors = {"row1": 1, "explicit-safe-filter": 1, "end-capture": 1, "component-result": 2, "component-body": 2, "super-output": 1,
+    floors = {"row1": 1, "explicit-safe-filter": 1, "end-capture": 1, "component-result": 2, "component-body": 1, "super-output": 1,
               "registered-safe": 3, "row8": 1, "row9": 2, "normal": 8}
     for row, fl in floors.items():
         rep.floor("C01.MINT", "mint sites of class %s [%s]" % (row, cfg), counts.get(row, 0), fl)
